@@ -78,7 +78,7 @@ def run_config(ctx, config, counts):
            "the selection uses the amount outside comparisons (%s): the finite order partition would not be complete" % bad, b["span"])
     ctx.sample({"function": G.HRU + "_fit", "summary": "; ".join("[%s] %s" % (T.show_guard(g), T.show(t)) for g, k, t in outs)[:900]})
     # natural unit lookup form is C09's lookup-form; here: evaluation on the tables
-    louts, lb, lev = G.summarize(U, G.HRU + "unit_from_scale", set())
+    louts, lb, lev = G.summarize(U, G.HRU + "unit_from_scale", {"*"}, stop=G.STOP_LOOKUP)
     prims = set()
     for q in w.qtypes:
         if q.kind != "ref":
